@@ -209,7 +209,13 @@ def make_case(g: G, depth, opts):
         if k == "assessSelf":
             ops.append(["assessSelf"])
         elif k == "assess":
-            ops.append(["assess", g.constraint(universe, coverage=1.0, bogus=0.0), cur_args])
+            c_full = g.constraint(universe, coverage=1.0, bogus=0.0)
+            if len(c_full) == len(universe):
+                ops.append(["assess", c_full, cur_args])
+            else:
+                # branches with incompatible address shapes cannot all be given a sample, and the
+                # implementation stages every branch of a switch (MissingAddress at trace time)
+                ops.append(["assessSelf"])
         elif k == "gen":
             ops.append(["gen", s, g.constraint(universe, masked=masked), cur_args])
         elif k == "proj":
@@ -385,18 +391,45 @@ def replay_case(ctx: Ctx, payload, props):
     run_cases(ctx, [case], props, label="replay")
 
 
+ASSUMPTIONS = [
+    "primitive distributions are the harness's integer test distributions (genjax.exact_density): the theorems hold for an "
+    "arbitrary sampler and log-density (DistSem), the correspondence is exact integer equality",
+    "fold_in(k, i) = split(k, n)[i] = threefry2x32(k, (0, i)) for this JAX build (re-checked by C04)",
+    "mask flags and switch indices reach the combinators as traced (array) values; concrete-False mask flags are a recorded finding",
+    "tuple and string addresses are not mixed inside one static function (a recorded finding of C23)",
+]
+EXTRA_TRUSTED = [
+    "harness/gfi.py real-API builders and value conversion (array-of-structs <-> pytrees by the program's type)",
+    "harness/gfi_ref.py: independent pure-Python oracle of the documented loops, used only by the property predicates",
+]
+
+
+def load_corpus(prop_id):
+    d = common.CORPUS / prop_id
+    out = []
+    if d.is_dir():
+        for f in sorted(d.glob("*.json")):
+            data = json.loads(f.read_text())
+            out += data if isinstance(data, list) else [data]
+    return out
+
+
 def standard_run(ctx: Ctx, props, focus=None, opts=None, n_quick=48, n_thorough=1200, depth_quick=2, depth_thorough=3,
-                 corpus=None):
-    """The standard E check: corpus first, then random histories."""
+                 prop_id=None, zero_len=0.0):
+    """The standard E check: corpus and known-finding replays first, then random histories."""
     opts = opts or {}
     ctx.rule = ("type-directed random programs over {dist, static, vmap, scan, switch, mask, dimap, repeat, or_else, "
                 "accumulate, reduce, iterate(_final), masked_iterate(_final)} with integer test distributions; a history is "
                 "simulate|generate followed by 1..k of assess/update(+backward)/regenerate/project/generate; every op's "
                 "(args, retval, score, choices, weight, backward constraint) is compared exactly with the Lean model; "
                 "non-trivial = at least one op beyond simulate; distinct by (program, history) text")
+    corpus = load_corpus(prop_id) if prop_id else []
+    for e in common.load_known(prop_id or ""):
+        if "case" in e.get("replay", {}):
+            corpus.append(e["replay"]["case"])
     if corpus:
         run_cases(ctx, corpus, props, label="corpus")
-    g = G(ctx.rng, focus=focus)
+    g = G(ctx.rng, focus=focus, zero_len=zero_len)
     n = n_quick if ctx.tier == "quick" else n_thorough
     depth = depth_quick if ctx.tier == "quick" else depth_thorough
     done = 0
